@@ -6,7 +6,9 @@ SPEC.update({
     "drivers": [dict(_S["drivers"][0], arch386=["quick", "thorough"]),
                 # time that passes where the code does not expect it: the process stopped for 1.2 s (real clock)
                 {"pkg": "internal/corerad", "test": "TestVerifStall", "newgo": True, "timeout": 300, "arch386": []},
-                {"pkg": "internal/corerad", "test": "TestVerifC07Crowd", "newgo": True, "timeout": 300, "arch386": []}],
+                {"pkg": "internal/corerad", "test": "TestVerifC07Crowd", "newgo": True, "timeout": 300, "arch386": []},
+                # the daemon end to end on a real socket: solicitations to ff02::2 and to the router's own address are answered
+                {"pkg": "cmd/corerad", "test": "TestVerifE2E", "timeout": 300, "arch386": []}],
     "nontrivial": lambda c: any(e.get("Src") != "::" for e in (c.get("input", {}).get("Events") or [])),
     "rule": _S["rule"].replace("Non-trivial: at least one multicast trigger besides the periodic loop (an RS from ::) or a tight loop",
                                "Non-trivial: at least one solicitation from a specified source"),
